@@ -851,8 +851,18 @@ func (r *c16Run) finish() {
 		}
 	}
 	it := pagetree.NewIterator(rd)
+	seq := it.All()
+	// the sequence is ranged over twice (the first time up to a third of the
+	// pages only): a traversal starts from scratch each time
+	stopAt := len(want) / 3
+	k := 0
+	for range seq {
+		if k++; k > stopAt {
+			break
+		}
+	}
 	i := 0
-	for ref, d := range it.All() {
+	for ref, d := range seq {
 		if i >= len(want) {
 			r.fail("reader/Iterator-order", "Iterator yields more than %d pages", len(want))
 			break
